@@ -47,7 +47,9 @@ def check_property(prop, tier, repo, record=False, verbose=False):
     seed = int(os.environ.get("VERIF_SEED", "0") or 0)
     rep = run_property(prop, tier, repo, verbose)
     obs = rep["obligations"]
-    names_top = sorted(n for n, o in obs.items() if o.kind in TOP_KINDS)
+    # "negative" obligations exist only while some path might do the forbidden thing: not part of the manifest
+    names_top = sorted(n for n, o in obs.items() if o.kind in TOP_KINDS and not n.endswith("raises-only-declared") and ".frame[" not in n
+                       and ".raises[" not in n)
     # --- manifest of obligation names (vacuity guard) ---------------------------------
     man = json.load(open(MANIFEST_OBL)) if os.path.exists(MANIFEST_OBL) else {}
     if record:
@@ -69,7 +71,7 @@ def check_property(prop, tier, repo, record=False, verbose=False):
         problems.append("zero obligations generated")
     produced = set(obs) | {"ast:" + a["name"] for a in rep["ast"]}
     undec_funcs = {u["function"] for u in rep["undecided"]}
-    missing = [n for n in man.get(prop, []) if n not in produced]
+    missing = [n for n in man.get(prop, []) if n not in produced and not n.endswith("raises-only-declared") and ".frame[" not in n and ".raises[" not in n]
     can_by_fn = {}
     for c in rep["canaries"]:
         can_by_fn.setdefault(c["function"], []).append(c["status"])
